@@ -60,6 +60,13 @@ def decl_variants(P='T', U='U'):
                                                [arg(T(P, 1, '&'), 'a'), arg(T(P + '::Value'), 'b'), arg(T('int'), 'k', '3')],
                                                tpl=[D.tparam(P, insts[0])]),
                                         D.func(single(T('void')), 'plain', [])])
+    # the same function name, instantiation and arity as func1, another signature (for the histories)
+    out['func1b'] = ([P], lambda insts: [D.func(single(T(P)), 'fun',
+                                                [arg(T(P + '::Value'), 'first'), arg(T(P, 1, '&'), 'second'), arg(T('double'), 'third', '0.5')],
+                                                tpl=[D.tparam(P, insts[0])]),
+                                         # two overloads of one function template with the same arity
+                                         D.func(single(T('int')), 'ovt', [arg(T(P, 1, '&'), 'a'), arg(T('int'), 'n')], tpl=[D.tparam(P, insts[0])]),
+                                         D.func(single(T(P)), 'ovt', [arg(T('string'), 's'), arg(T(P, 0, '*'), 'p')], tpl=[D.tparam(P, insts[0])])])
     out['func2'] = ([P, U], lambda insts: [D.ns('gt', [D.func(pair(T(P), T(U)), 'fun2',
                                                              [arg(T(P, 0, '*'), 'a'), arg(T(U, 1, '&'), 'b')],
                                                              tpl=[D.tparam(P, insts[0]), D.tparam(U, insts[1])])])])
@@ -187,7 +194,7 @@ def check_select(case):
     except Exception as e:
         return {'viol': [{'sig': 'C13|%s|exception|%s' % (variant, type(e).__name__),
                           'msg': '%s: %s\n--- input ---\n%s' % (type(e).__name__, str(e)[:300], text)}]}
-    base = {'class1': 'Foo', 'class2': 'Foo', 'func1': 'fun', 'func2': 'fun2', 'member': 'Foo', 'fwdtd': 'Ext', 'classtd': 'Box',
+    base = {'class1': 'Foo', 'class2': 'Foo', 'func1': 'fun', 'func1b': 'fun', 'func2': 'fun2', 'member': 'Foo', 'fwdtd': 'Ext', 'classtd': 'Box',
             'functd': 'mk'}[variant]
     ncmp = 0
     for combo in itertools.product(*sel):
